@@ -125,15 +125,17 @@ fn fin_of(r: &io::Result<()>) -> (String, Option<String>) {
     }
 }
 
-fn bgzf_read_to_end<R: Read>(mut r: R) -> Run {
+/// `cap`: a reader that delivers more than this is stopped (a reader that re-delivers a block forever must not eat
+/// the machine's memory before the CPU budget fires); the surplus makes the byte comparison fail.
+fn bgzf_read_to_end<R: Read>(r: R, cap: usize) -> Run {
     let mut v = Vec::new();
     // `read_to_end` keeps what was read before an error in `v`
-    let res = r.read_to_end(&mut v).map(|_| ());
+    let res = r.take(cap as u64).read_to_end(&mut v).map(|_| ());
     let (fin, err_msg) = fin_of(&res);
     Run { elems: vec![], fin, bytes: Some(v), err_msg }
 }
 
-fn bgzf_pattern<R: Read + BufRead>(mut r: R) -> Run {
+fn bgzf_pattern<R: Read + BufRead>(mut r: R, cap: usize) -> Run {
     use corpus::{BGZF_READ_PATTERN, BgzfReadOp};
     let mut out = Vec::new();
     let mut buf = vec![0u8; 70000];
@@ -155,7 +157,12 @@ fn bgzf_pattern<R: Read + BufRead>(mut r: R) -> Run {
         };
         match res {
             Ok(0) => break Ok(()),
-            Ok(n) => out.extend_from_slice(&buf[..n]),
+            Ok(n) => {
+                out.extend_from_slice(&buf[..n]);
+                if out.len() >= cap {
+                    break Ok(());
+                }
+            }
             Err(e) if e.kind() == io::ErrorKind::Interrupted => {}
             Err(e) => break Err(e),
         }
@@ -175,11 +182,11 @@ fn fai_records(data: &[u8]) -> Run {
     }
 }
 
-fn run_driver(item: &Item, drv: Drv, data: &[u8]) -> Result<Run, guard::PanicInfo> {
+fn run_driver(item: &Item, drv: Drv, data: &[u8], cap: usize) -> Result<Run, guard::PanicInfo> {
     guard::catch(|| match drv {
-        Drv::BgzfReadToEnd => bgzf_read_to_end(bgzf::io::Reader::new(data)),
-        Drv::BgzfPattern => bgzf_pattern(bgzf::io::Reader::new(data)),
-        Drv::BgzfMt => bgzf_read_to_end(bgzf::io::MultithreadedReader::new(io::Cursor::new(data.to_vec()))),
+        Drv::BgzfReadToEnd => bgzf_read_to_end(bgzf::io::Reader::new(data), cap),
+        Drv::BgzfPattern => bgzf_pattern(bgzf::io::Reader::new(data), cap),
+        Drv::BgzfMt => bgzf_read_to_end(bgzf::io::MultithreadedReader::new(io::Cursor::new(data.to_vec())), cap),
         Drv::FaiRecords => fai_records(data),
         Drv::Primary | Drv::Eager => {
             let variant = if drv == Drv::Eager { Variant::Eager } else { Variant::Primary };
@@ -376,6 +383,10 @@ impl Oracle {
             _ => {}
         }
         o
+    }
+
+    fn byte_cap(&self) -> usize {
+        self.stream.len() + 200_000
     }
 
     /// (number of complete members before the cut, end offset of the last of them)
@@ -795,6 +806,39 @@ fn cuts_for(item: &Item, seed: u64, p: &Plan) -> (Vec<usize>, bool) {
     (set.into_iter().collect(), false)
 }
 
+/// A raw BAM / BCF corpus stream written through noodles' own BGZF writer with `flush()` calls at chosen stream
+/// offsets, so that member boundaries fall 1, 2, 3 and 4 bytes into a record (inside / right after its length
+/// field), 8 bytes into one, in the middle of one, exactly on record starts, on the end of the header and inside the
+/// header. (The corpus files have their member boundaries either on record boundaries or wherever 64 KiB end.)
+fn rewrap(item: &Item) -> Option<Item> {
+    use std::io::Write;
+    let (kind, b) = match item.kind {
+        Kind::BamRaw => (Kind::Bam, corpus::bounds::bam_record_offsets(&item.bytes)?),
+        Kind::BcfRaw => (Kind::Bcf, corpus::bounds::bcf_record_offsets(&item.bytes)?),
+        _ => return None,
+    };
+    if b.len() < 9 || item.bytes.len() > 40000 {
+        return None;
+    }
+    // the header split avoids the last 200 header bytes (a BCF header cut inside its `#CHROM` line is a finding of
+    // its own, witnessed by the raw BCF files)
+    let mut splits = vec![b[0].saturating_sub(200).max(10), b[0], b[1] + 1, b[2] + 2, b[3] + 3, b[4] + 4, b[5], b[6] + 8, (b[6] + b[7]) / 2, b[7]];
+    splits.sort_unstable();
+    splits.dedup();
+    let s = &item.bytes;
+    let mut w = bgzf::io::Writer::new(Vec::new());
+    let mut prev = 0usize;
+    for x in splits {
+        w.write_all(&s[prev..x]).ok()?;
+        w.flush().ok()?;
+        prev = x;
+    }
+    w.write_all(&s[prev..]).ok()?;
+    let bytes = w.finish().ok()?;
+    let tail = item.name.split_once('/').map(|x| x.1).unwrap_or(&item.name);
+    Some(Item { kind, name: format!("{}/c13-flushed-inside-records-{tail}", kind.name()), bytes, side: item.side.clone() })
+}
+
 fn build_files(ctx: &Ctx) -> Vec<FileEntry> {
     let p = plan(ctx);
     let tmp = ctx.work.join(format!("corpus-{}", std::process::id()));
@@ -803,7 +847,10 @@ fn build_files(ctx: &Ctx) -> Vec<FileEntry> {
     let mut files = Vec::new();
     let only = ctx.param("only");
     for &seed in &p.seeds {
-        for item in corpus::items_with_tmp(seed, p.scale, &tmp) {
+        let mut items = corpus::items_with_tmp(seed, p.scale, &tmp);
+        let extra: Vec<Item> = items.iter().filter_map(rewrap).collect();
+        items.extend(extra);
+        for item in items {
             if !KINDS.contains(&item.kind) {
                 continue;
             }
@@ -889,7 +936,7 @@ fn run_case(ctx: &Ctx, files: &[FileEntry], case: &Case) -> CaseOut {
     }
     let sk = case.drv.sig_kind(kind);
     // transcript of the uncut file
-    let t = match run_driver(item, case.drv, &item.bytes) {
+    let t = match run_driver(item, case.drv, &item.bytes, o.byte_cap()) {
         Ok(t) => t,
         Err(p) => {
             out.inconclusive.push(format!("{}: the {} driver panics on the UNCUT file ({}); not a truncation finding", item.name, case.drv.name(), p.sig));
@@ -928,7 +975,7 @@ fn run_case(ctx: &Ctx, files: &[FileEntry], case: &Case) -> CaseOut {
             bump(format!("cuts_by_class[{cc}]"));
             bump("cuts".into());
         }
-        let run = match run_driver(item, case.drv, &item.bytes[..c]) {
+        let run = match run_driver(item, case.drv, &item.bytes[..c], o.byte_cap()) {
             Ok(r) => r,
             Err(p) => {
                 let sig = format!("{sk}:panic:{cc}:{}{}", p.sig, if chk { " profile=chk" } else { "" });
@@ -1044,8 +1091,8 @@ fn main() {
             for drv in drivers(f.item.kind).into_iter().filter(|d| drv_name.is_empty() || d.name() == drv_name) {
                 let c = cut.min(f.item.bytes.len());
                 println!("== {} (corpus seed {}, {} bytes) cut at {c}: class {}, stream {} of {} bytes, driver {}", f.item.name, f.seed, o.len, o.cut_class(c), o.stream_len(c, &f.item), o.stream.len(), drv.name());
-                let t = run_driver(&f.item, drv, &f.item.bytes).ok();
-                match run_driver(&f.item, drv, &f.item.bytes[..c]) {
+                let t = run_driver(&f.item, drv, &f.item.bytes, o.byte_cap()).ok();
+                match run_driver(&f.item, drv, &f.item.bytes[..c], o.byte_cap()) {
                     Err(p) => println!("   PANIC {}", p.sig),
                     Ok(r) => {
                         println!("   {} element(s), {} byte(s), final {} {:?}", r.elems.len(), r.bytes.as_ref().map(|b| b.len()).unwrap_or(0), r.fin, r.err_msg);
